@@ -7,7 +7,7 @@ import os
 import engine_session
 from common import (Infra, NCPU, Result, Scratch, build_harness, cfg, match_finding, q, run_harness, run_tlc, seed, tlc_ok)
 
-ALL = ["m3", "m2", "m1", "bsv", "m_1", "m_2", "bch", "x0", "f1", "f1x", "g3", "g2", "g1", "g0", "late", "orph", "gen1", "h2", "h1", "h0", "clean"]
+ALL = ["m3", "m2", "m1", "bsv", "m_1", "m_2", "bch", "x0", "f1", "f1x", "g3", "g2", "g1", "g0", "late", "orph", "gen1", "h2", "h1", "h0", "clean"]  # "adv" only in its own family
 REAL = ["m3", "m2", "m1", "bsv", "m_1", "m_2", "bch"]
 FOCUS = ["m3", "m2", "m1", "bsv", "bch", "x0", "f1", "f1x", "g3", "g2", "g1", "g0"]
 # a fork (g2 g1) of the real chain, a heavier fork (h1) of that fork, maintenance at any point, then offers at the split height
@@ -45,7 +45,11 @@ def run(tier):
                  ("sim", ALL, 10, 600 if quick else 6000, P0), ("sim", FOCUS, 9, 400 if quick else 4000, P0),
                  ("sim", NESTED, 9, 600 if quick else 6000, P0),
                  ("bfs", ["g1", "g0", "h2", "h1", "h0", "clean", "m2"], 7 if quick else 9, 0, PN),
-                 ("sim", ["g1", "g0", "h2", "h1", "h0", "clean", "m2", "m1", "bsv", "bch"], 12, 600 if quick else 6000, PN)]
+                 ("sim", ["g1", "g0", "h2", "h1", "h0", "clean", "m2", "m1", "bsv", "bch"], 12, 600 if quick else 6000, PN),
+                 # forks created below the split, then the real chain advances 150 headers past it (deeper than the fork
+                 # depth limit), then every order of offers at the split height on the main chain and on those forks
+                 ("bfs", ["f1x", "g0", "x0", "bch", "clean"], 14 if quick else 15, 0,
+                  ["m3", "m2", "m1", "f1", "g3", "g2", "g1", "bsv", "m_1", "m_2", "adv"])]
         for i, (mode, names, depth, num, prefix) in enumerate(plans):
             mod = {"SGRun.tla": sg_module(prefix)}
             if mode == "bfs":
